@@ -16,6 +16,7 @@ import (
 	"sort"
 	"strconv"
 	"strings"
+	"sync"
 	"time"
 
 	"golang.org/x/tools/go/ssa"
@@ -241,7 +242,49 @@ func isTimeType(t types.Type) bool {
 	return ok && n.Obj().Pkg() != nil && n.Obj().Pkg().Path() == "time" && n.Obj().Name() == "Time"
 }
 
+// ptrTo memoises pointer types: go/types pointer types are compared by
+// identity in the method-set cache, so a fresh *T per call leaks an entry.
+var (
+	ptrMu   sync.Mutex
+	ptrMemo = map[types.Type]*types.Pointer{}
+)
+
+func ptrTo(t types.Type) *types.Pointer {
+	ptrMu.Lock()
+	defer ptrMu.Unlock()
+	if p, ok := ptrMemo[t]; ok {
+		return p
+	}
+	p := types.NewPointer(t)
+	ptrMemo[t] = p
+	return p
+}
+
+type methKey struct {
+	t    types.Type
+	name string
+}
+
+var (
+	methMu   sync.Mutex
+	methMemo = map[methKey]*ssa.Function{}
+)
+
 func (i *interpreter) findMethod(t types.Type, name string) *ssa.Function {
+	methMu.Lock()
+	if f, ok := methMemo[methKey{t, name}]; ok {
+		methMu.Unlock()
+		return f
+	}
+	methMu.Unlock()
+	f := i.findMethod0(t, name)
+	methMu.Lock()
+	methMemo[methKey{t, name}] = f
+	methMu.Unlock()
+	return f
+}
+
+func (i *interpreter) findMethod0(t types.Type, name string) *ssa.Function {
 	ms := i.prog.MethodSets.MethodSet(t)
 	for k := 0; k < ms.Len(); k++ {
 		sel := ms.At(k)
@@ -295,7 +338,7 @@ func (i *interpreter) marshalValue(fr *frame, t types.Type, v value, addr *value
 			return i.callMarshaler(fr, m, v)
 		}
 		if addr != nil {
-			if m := i.findMethod(types.NewPointer(t), "MarshalJSON"); m != nil {
+			if m := i.findMethod(ptrTo(t), "MarshalJSON"); m != nil {
 				return i.callMarshaler(fr, m, addr)
 			}
 		}
@@ -733,7 +776,7 @@ func (u *unmarshalState) decode(n *jnode, t types.Type, addr *value, depth int) 
 	}
 	// Unmarshaler on *T
 	if _, isIface := t.Underlying().(*types.Interface); !isIface && !isTimeType(t) {
-		pt := types.NewPointer(t)
+		pt := ptrTo(t)
 		if _, isPtr := t.Underlying().(*types.Pointer); !isPtr {
 			if m := i.findMethod(pt, "UnmarshalJSON"); m != nil {
 				if n.kind == jNull && !i.hasMethodOnValue(t) {
@@ -1056,5 +1099,66 @@ func init() {
 			return tuple{[]value{&jsonBlob{raw: []byte("null")}}, iface{}}
 		}
 		return tuple{d, iface{}}
+	})
+}
+
+// ---- streaming API: json.NewDecoder(r).Decode(v) / json.NewEncoder(w).Encode(v) ----
+// Decode = read everything the reader has, decode one value (what follows a
+// complete first value is not inspected, as in the real Decoder); an empty
+// stream is io.EOF.  Encode = Marshal + one Write.
+
+type jsonDecoderModel struct {
+	r    value
+	done bool
+}
+
+func (*jsonDecoderModel) isModel() {}
+
+type jsonEncoderModel struct{ w iface }
+
+func (*jsonEncoderModel) isModel() {}
+
+func init() {
+	reg("encoding/json.NewDecoder", func(i *interpreter, fr *frame, args []value) value {
+		return &jsonDecoderModel{r: args[0]}
+	})
+	reg("(*encoding/json.Decoder).UseNumber", func(i *interpreter, fr *frame, args []value) value {
+		unsupportedf("json.Decoder.UseNumber")
+		return nil
+	})
+	reg("(*encoding/json.Decoder).Decode", func(i *interpreter, fr *frame, args []value) value {
+		d := args[0].(*jsonDecoderModel)
+		if d.done {
+			return i.env.sentinel("io.EOF", "EOF")
+		}
+		d.done = true
+		res := i.readAll(d.r).(tuple)
+		if e, ok := res[1].(iface); ok && e.t != nil {
+			return e
+		}
+		data, _ := res[0].([]value)
+		if len(data) == 0 {
+			return i.env.sentinel("io.EOF", "EOF")
+		}
+		return i.jsonUnmarshal(fr, data, args[1])
+	})
+	reg("encoding/json.NewEncoder", func(i *interpreter, fr *frame, args []value) value {
+		return &jsonEncoderModel{w: args[0].(iface)}
+	})
+	reg("(*encoding/json.Encoder).SetIndent", func(i *interpreter, fr *frame, args []value) value { return nil })
+	reg("(*encoding/json.Encoder).SetEscapeHTML", func(i *interpreter, fr *frame, args []value) value { return nil })
+	reg("(*encoding/json.Encoder).Encode", func(i *interpreter, fr *frame, args []value) value {
+		e := args[0].(*jsonEncoderModel)
+		res := i.jsonMarshal(fr, args[1]).(tuple)
+		if er, ok := res[1].(iface); ok && er.t != nil {
+			return er
+		}
+		data, _ := res[0].([]value)
+		blob := blobOf(data)
+		if blob == nil {
+			unsupportedf("json.Encoder.Encode: marshal result is not a blob")
+		}
+		wr := i.writeBlobTo(e.w, blob).(tuple)
+		return wr[1]
 	})
 }
